@@ -7,10 +7,18 @@ Real-valued regime: the real operators run with their random draws forced from t
 the draws actually consumed are replayed through the `Float` instance of `Core/RealOps.lean`, answers
 are compared with relative tolerance 1e-9.  The oracle evaluates the property text on the
 implementation's own result: identity of the returned objects, lengths, `math.isfinite`, not complex,
-bounds *exactly* (`xl <= c <= xu` in doubles), sums / blend range within a rounding tolerance,
-untouched individual for indpb = 0, strategies > 0."""
+bounds *exactly* (`xl <= c <= xu` in doubles), sums within the PROVED rounding bound (exact rational arithmetic),
+blend range within a rounding tolerance, untouched individual for indpb = 0, strategies > 0.
+
+Rounded semantics (Core/RoundedOps.lean): the final clamp on `XF` (finite | +inf | -inf | nan) against CPython's
+`min(max(c, xl), xu)`; the decidable hypotheses of the NaN-freedom theorems (C10.sbxb_rounded_locus,
+C10.poly_rounded_locus) evaluated by the Lean driver on the exact rational values of the doubles against an
+independent evaluation here; on the extreme-magnitude stream the theorems' conclusion is evaluated on the real result
+(hypotheses hold => gene finite and inside the bounds) and the Float model is compared NaN for NaN."""
 import array
 import math
+import sys
+from fractions import Fraction
 
 import numpy
 
@@ -27,7 +35,13 @@ RULE = ("grid: single-locus cases over genes {low, interior, up} x eta {0,1,20,1
         "1e-6..1e6 x every combination of boundary draws {0, 2^-53, 0.5-2^-53, 0.5, 0.5+2^-53, 1-2^-53}; clamp stream: "
         "bounded SBX / polynomial mutation with genes on or one ulp from a bound, bound pairs of unequal magnitude "
         "(xl + (xu - xl) != xu), boundary draws, so that the value before `min(max(c, xl), xu)` leaves the bounds by "
-        "rounding (tag letters 1, 2 = clamp of child 1 / 2 fires, l, u = polynomial clamp fires below / above); alias: "
+        "rounding (tag letters 1, 2 = clamp of child 1 / 2 fires, l, u = polynomial clamp fires below / above); xclamp: "
+        "the clamp on nan, +-inf, +-0.0, subnormals, +-max and log-uniform magnitudes with proper and improper bounds; "
+        "xmag (outside the statement's quantifier): bounded SBX / polynomial mutation on 1..2 loci with bound widths from "
+        "1e-300 to 1.8e308 (also overflowing widths and overflowing parent sums), bounds at 0, +-w, +-1, +-1e300, "
+        "parents on the bounds / one ulp inside / mid, eta in {0, 1e-3, 1, 20, 1e3, 1e6, 1e15, 1e300}, shaping draws in "
+        "{0, 5e-324, 1e-300, 2^-53, .25, .5-2^-53, .5, .5+2^-53, .75, 1-2^-52, 1-2^-53} (tag = failing hypothesis "
+        "clauses / gene states), plus the inputs of the counterexample theorems; alias: "
         "crossover called with the same object twice (oracle only); containers: every operator x every kind of sequence "
         "individual (list, array('d'), numpy.ndarray, a user class keeping its genes in an inner list with integer "
         "indexing only, a user class with the bare __len__/__getitem__/__setitem__ protocol); random: 1..8 (sometimes "
@@ -40,12 +54,20 @@ EXHAUSTIVE = {"quick": False, "thorough": False}
 TIME_BUDGET = {"quick": 60, "thorough": 900}
 TRUSTED = ["IEEE-754 binary64 / libm (pow, exp, sqrt) behave the same in CPython and in Lean's Float (both call "
            "the C library); answers are compared with relative tolerance 1e-9, never bitwise",
-           "the theorems are about exact reals: rounding, overflow to inf, underflow to 0.0, NaN propagation "
-           "through min/max and Python's OverflowError / ZeroDivisionError / complex result of float ** are NOT "
-           "exhibited by the model; the oracle looks for them on the implementation (isfinite, not complex, "
-           "exact bounds, strategies > 0) on every explored input.  In particular, over the reals the final clamp "
-           "never fires (C10.sbxb_unclamped, C10.poly_unclamped): that the genes stay inside the bounds in IEEE "
-           "arithmetic rests on the oracle's exact `xl <= c <= xu` test, exercised by the clamp stream",
+           "two semantics are proved about: exact reals (C10.*_sum, *_range, *_welldefined, *_bounds, *_unclamped) and a "
+           "rounded one (Core/RoundedOps.lean: ANY arithmetic on finite | +inf | -inf | nan whose + - * / round the exact "
+           "result monotonically, exactly on representable results and never to nan, IEEE special values, a pow that is "
+           "nan only for invalid operations, sign-correct and monotone; nan also stands for a Python exception). "
+           "C10.sbxb_rounded / poly_rounded prove finite in-bounds genes for the bounded operators in that semantics; "
+           "that CPython's doubles and the C library's pow ARE such an arithmetic (binary64 round-to-nearest is; "
+           "monotonicity of libm pow is assumed) is trusted, and probed by the xmag stream (theorem hypotheses hold => "
+           "real gene finite and in bounds, on every explored extreme input)",
+           "C10.blend_sum_rounded / esblend_sum_rounded / sbx_sum_rounded are proved in the standard model of "
+           "floating-point arithmetic fl(a op b) = (a op b)(1+d), |d| <= u, products + e, |e| <= nu, no overflow; that "
+           "binary64 round-to-nearest satisfies it with u = 2^-53, nu = 2^-1075 is textbook and trusted; the oracle "
+           "evaluates exactly that bound over the rationals",
+           "what remains outside every model: exp underflow / OverflowError in mutESLogNormal, the unbounded "
+           "operators' overflow for huge genes, rounding in the blend range clause (tolerance 1e-9)",
            "the clause 'modify and return the objects they were given' rests on the harness's `is` tests (returned "
            "individual is the input, its strategy list is the input's strategy list) on every explored call: the "
            "model writes `{ ind with genes := .. }`, so the C10.*_in_place theorems hold by construction of the "
@@ -61,22 +83,37 @@ ASSUMPTIONS = ["genes are finite doubles inside [low, up]; low < up, magnitudes 
                "ES strategies and sigma between 1e-6 and 1e6, learning parameter c in [0,50] (from c ~ 61 on, or for "
                "subnormal strategies, exp underflow can turn a positive strategy into 0.0 and math.exp can raise "
                "OverflowError under boundary gauss draws — outside the stated domain)",
-               "the sum clause is checked to rounding accuracy, not exactly: tolerance 1e-9*max(|parents|,|children|), "
-               "plus for cxSimulatedBinary 16*2^-53*(1+beta)*(|x1|+|x2|) because the code adds two products of size "
-               "beta*|x|; i.e. the sum of the children is checked relative to beta*|x|, which at eta = 0 and "
-               "rand = 1-2^-53 (beta = 2^52) is no constraint at all — for such draws the clause is established by "
-               "the theorem C10.sbx_sum and the model-vs-implementation comparison only",
+               "the sum clause is read up to rounding: |c1 + c2 - (x1 + x2)| <= 6*2^-53*(|x1|+|x2|)*(1+|gamma|) + 5*2^-1075 "
+               "for cxBlend / cxESBlend and <= 5*2^-53*(|x1|+|x2|)*(1+|beta|) + 5*2^-1075 for cxSimulatedBinary, gamma / beta "
+               "as the code computed them (theorems C10.*_sum_rounded; compared exactly over the rationals). For "
+               "cxSimulatedBinary the bound is relative to beta*|x|, which at eta = 0 and rand = 1-2^-53 (beta = 2^52) "
+               "is a weak constraint — that is what floating-point arithmetic can keep",
+               "magnitudes for the bounded operators: the width xu - xl of a bound pair and the sum x1 + x2 of two "
+               "parents are finite doubles (|low|, |up| <= 8.9e307 suffices), and for the mutation xu - xl >= 1e-14 "
+               "(hypothesis of the abstract theorem only; IEEE subtraction never underflows to 0). Beyond: "
+               "low = -1e308, up = 1e308 gives xu - xl = inf and nan genes (0*inf, C10.poly_width_overflow_nan, "
+               "C10.sbxb_width_overflow_nan); low = 0, up = 1.7e308 with parents 8.5e307, 1.7e308 gives x1 + x2 = inf and "
+               "inf - inf = nan for rand = 1-2^-53. These inputs are run (stream xmag) and compared with the Float model, "
+               "nothing is demanded of them",
                "numpy.ndarray individuals: numpy scalars do not raise on division by zero / negative base (inf / nan "
                "with a warning instead); inside the domain neither occurs"]
-EXPLANATION = ("Theorems C10.* are proved over the reals for all lengths, genes, bounds, parameters and draws; "
-               "Core/RealOps.lean keeps the Python operation order so that its Float instance replays the real "
-               "operators draw by draw (correspondence); the strength is partial because IEEE effects (in particular "
-               "the in-bounds clause, which over the reals needs no clamp) are only searched for, not proved absent, "
-               "and because object identity ('modify and return the objects they were given') is established by the "
-               "harness's `is` tests on the real objects, the model returning the same record by construction.")
+EXPLANATION = ("Theorems C10.* are proved for all lengths, genes, bounds, parameters and draws, over the reals and — "
+               "for the in-bounds / finite clause of the two bounded operators and the sum clause of the three "
+               "crossovers — also in a rounded semantics (any monotone, exact-on-representables rounding with IEEE "
+               "special values; the standard model of floating-point error for the sums). Core/RealOps.lean keeps the "
+               "Python operation order, so the same definitions run on Float (correspondence), on the reals and on the "
+               "rounded scalars. The strength stays partial: that CPython's arithmetic and libm's pow satisfy the laws "
+               "of the rounded semantics is trusted and probed, not proved; the ES mutations and the blend range clause "
+               "have no rounded theorem; and object identity ('modify and return the objects they were given') is "
+               "established by the harness's `is` tests on the real objects.")
 
 EPSM = 2.0 ** -53
 TOP = 1.0 - EPSM                      # largest value random.random() returns
+U64 = Fraction(1, 2 ** 53)            # unit roundoff of binary64 (round to nearest)
+NU64 = Fraction(1, 2 ** 1075)         # largest absolute error of an underflowing product
+OMEGA = Fraction(sys.float_info.max)  # largest finite double
+EPS14 = Fraction(1e-14)               # the literal 1e-14 as CPython reads it
+TOPQ = Fraction(TOP)
 DRAW_EDGE = [0.0, EPSM, 0.5 - EPSM, 0.5, 0.5 + EPSM, TOP]
 ZMAX = 8.57                           # sqrt(-2 log 2^-53) = 8.5717…
 
@@ -203,6 +240,8 @@ class KTape(tapemod.Tape):
 def ftok(x):
     if isinstance(x, complex):
         return "complex(%r)" % (x,)
+    if x != x:
+        return "nan"                  # the bit pattern of a NaN is not canonical
     return fbits(x)
 
 
@@ -255,6 +294,34 @@ def check_sum(name, a, b, c, d, extra=None):
         if abs((c[i] + d[i]) - (a[i] + b[i])) > tol:
             return "%s: children sum %r differs from parents sum %r at locus %d" % (name, c[i] + d[i], a[i] + b[i], i)
     return None
+
+
+def check_sum_exact(name, a, b, c, d, k, factors):
+    """the sum clause with the PROVED rounding bound (C10.blend_sum_rounded / esblend_sum_rounded: k = 6, factor =
+    1 + |gamma|; C10.sbx_sum_rounded: k = 5, factor = 1 + |beta|), evaluated exactly over the rationals:
+    |c1 + c2 - (x1 + x2)| <= k * 2^-53 * (|x1| + |x2|) * factor + 5 * 2^-1075"""
+    for i in range(min(len(a), len(b))):
+        x1, x2, y1, y2 = (Fraction(float(v)) for v in (a[i], b[i], c[i], d[i]))
+        bound = k * U64 * (abs(x1) + abs(x2)) * Fraction(float(factors[i])) + 5 * NU64
+        if abs((y1 + y2) - (x1 + x2)) > bound:
+            return "%s: children sum %r differs from parents sum %r at locus %d by %.3g, more than the proved rounding " \
+                   "bound %.3g" % (name, c[i] + d[i], a[i] + b[i], i, float(abs((y1 + y2) - (x1 + x2))), float(bound))
+    return None
+
+
+def blend_factors(alpha, draws):
+    """1 + |gamma| per locus, gamma as cxBlend computes it (:255)"""
+    return [1.0 + abs((1. + 2. * alpha) * r - alpha) for r in draws]
+
+
+def sbx_factors(eta, draws):
+    """1 + |beta| per locus, beta as cxSimulatedBinary computes it (:279-283)"""
+    out = []
+    for rand in draws:
+        beta = 2. * rand if rand <= 0.5 else 1. / (2. * (1. - rand))
+        beta **= 1. / (eta + 1.)
+        out.append(1.0 + abs(beta))
+    return out
 
 
 def check_range(name, a, b, c, d, alpha):
@@ -356,7 +423,7 @@ def run(fn, rs, zs, *args):
     with t:
         try:
             res = fn(*args)
-        except (IndexError, ZeroDivisionError) as e:
+        except (IndexError, ZeroDivisionError, OverflowError) as e:
             res = type(e).__name__
     return res, t
 
@@ -377,6 +444,10 @@ def evaluate(d):
     try:
         if d.get("alias"):
             return evaluate_alias(d)
+        if d["op"] == "xclamp":
+            return evaluate_xclamp(d)
+        if d.get("xmag"):
+            return evaluate_xmag(d)
         return _evaluate(d)
     except (tapemod.TapeExhausted, tapemod.TapeMismatch) as e:
         # the operator no longer draws what the model replays: a break of the correspondence, not a failing input
@@ -426,6 +497,196 @@ def evaluate_alias(d):
     return Case(d, [], [], orc, tag="%s/alias/x" % op, nontrivial=n > 0)
 
 
+
+# ---------------------------------------------------------------------------------------------
+# rounded semantics (Core/RoundedOps.lean): the clamp on XF, the hypotheses of the NaN-freedom theorems
+# ---------------------------------------------------------------------------------------------
+def fv(v):
+    """a double from its description (non-finite values travel as strings)"""
+    return float(v)
+
+
+def dv(x):
+    """description of a double (JSON has no nan / inf)"""
+    x = float(x)
+    return x if math.isfinite(x) else repr(x)
+
+
+def xf_str(x):
+    """a double as the Lean driver prints an `XF`"""
+    if x != x:
+        return "nan"
+    if x in (math.inf, -math.inf):
+        return "inf" if x > 0 else "-inf"
+    q = Fraction(x)
+    return str(q.numerator) if q.denominator == 1 else "%d/%d" % (q.numerator, q.denominator)
+
+
+def evaluate_xclamp(d):
+    """`min(max(c, xl), xu)` as the operators' last step evaluates it, on any double (nan, infinities, subnormals):
+    CPython's result against `XF.clamp`; C10.clamp_in_bounds / clamp_nan evaluated on the real result"""
+    c, xl, xu = fv(d["c"]), fv(d["xl"]), fv(d["xu"])
+    res = min(max(c, xl), xu)
+    orc = None
+    if math.isfinite(xl) and math.isfinite(xu) and xl <= xu:
+        if c != c:
+            if res == res:
+                orc = "CORRESPONDENCE: min(max(nan, %r), %r) = %r is not nan (C10.clamp_nan)" % (xl, xu, res)
+        elif not (xl <= res <= xu):
+            orc = "CORRESPONDENCE: min(max(%r, %r), %r) = %r outside the bounds (C10.clamp_in_bounds)" % (c, xl, xu, res)
+    tag = "xclamp/%s" % ("nan" if c != c else "inf" if math.isinf(c) else "fin")
+    return Case(d, ["C10 xclamp %s %s %s" % (fbits(c), fbits(xl), fbits(xu))], [xf_str(res)], orc, tag=tag)
+
+
+def _allfinite(*vs):
+    return all(math.isfinite(v) for v in vs)
+
+
+def sbxb_why(eta, a, b, xl, xu, rand):
+    """first failing clause of the hypotheses of C10.sbxb_rounded_locus on exact values (Lean: RoundedOps.sbxbWhy)"""
+    if not _allfinite(eta, a, b, xl, xu, rand):
+        return "nonfinite"
+    eta, a, b, xl, xu, rand = (Fraction(float(v)) for v in (eta, a, b, xl, xu, rand))
+    if not (0 <= eta and eta + 1 <= OMEGA):
+        return "eta"
+    if not (xl <= a <= xu and xl <= b <= xu):
+        return "box"
+    if not xu - xl <= OMEGA:
+        return "width"
+    if not -OMEGA <= a + b <= OMEGA:
+        return "sum"
+    if not 0 <= rand <= TOPQ:
+        return "rand"
+    return "ok"
+
+
+def poly_why(eta, x, xl, xu, rand):
+    """first failing clause of the hypotheses of C10.poly_rounded_locus on exact values (Lean: RoundedOps.polyWhy)"""
+    if not _allfinite(eta, x, xl, xu, rand):
+        return "nonfinite"
+    eta, x, xl, xu, rand = (Fraction(float(v)) for v in (eta, x, xl, xu, rand))
+    if not (0 <= eta and eta + 1 <= OMEGA):
+        return "eta"
+    if not xl <= x <= xu:
+        return "box"
+    if not EPS14 <= xu - xl:
+        return "narrow"
+    if not xu - xl <= OMEGA:
+        return "width"
+    if not 0 <= rand < 1:
+        return "rand"
+    return "ok"
+
+
+def sbxb_crossed(x1, x2, rs):
+    """loci that bounded SBX crosses for the forced draws `rs`, with the shaping draw of each: (i, rand)"""
+    k, out = 0, []
+    for i in range(min(len(x1), len(x2))):
+        if k >= len(rs):
+            break
+        g = rs[k]; k += 1
+        if g <= 0.5 and abs(x1[i] - x2[i]) > 1e-14:
+            if k + 1 >= len(rs):
+                break
+            out.append((i, rs[k])); k += 2
+    return out
+
+
+def poly_mutated(n, indpb, rs):
+    k, out = 0, []
+    for i in range(n):
+        if k >= len(rs):
+            break
+        g = rs[k]; k += 1
+        if g <= indpb:
+            if k >= len(rs):
+                break
+            out.append((i, rs[k])); k += 1
+    return out
+
+
+def in_statement_domain(eta, lo, up):
+    """the quantifier of the statement: bound pairs low < up spanning 1e-6 .. 1e6, eta in [0, 1000]"""
+    return 0 <= eta <= 1000 and all(l < u and 1e-6 <= u - l <= 2e6 and abs(l) <= 2e6 and abs(u) <= 2e6
+                                    for l, u in zip(lo, up))
+
+
+def gene_state(v, lo, up):
+    if isinstance(v, complex):
+        return "complex"
+    if v != v:
+        return "nan"
+    if math.isinf(v):
+        return "inf"
+    return "fin" if lo <= v <= up else "out"
+
+
+def evaluate_xmag(d):
+    """extreme magnitudes (bounds from 1e-300 to 1e308 wide, eta up to 1e6 and beyond, draws next to 0 and 1): outside
+    the quantifier of the statement.  Compared: (1) the Float model against the real operator, NaN and infinities
+    included (the final clamp and every NaN source of the model agree with the real outcome); (2) the decidable
+    hypotheses of the NaN-freedom theorems as Lean evaluates them against an independent evaluation here;
+    (3) the theorems' conclusion on the real result: hypotheses hold => the gene is finite and inside the bounds."""
+    with numpy.errstate(all="ignore"):          # numpy scalars warn where floats stay silent
+        return _evaluate_xmag(d)
+
+
+def _evaluate_xmag(d):
+    op, cont = d["op"], d.get("cont", "list")
+    rs = d["rs"]
+    eta = d["eta"]
+    tol = 1e-9
+    if op == "sbxb":
+        x1, x2 = list(d["x1"]), list(d["x2"])
+        n = min(len(x1), len(x2))
+        lo, up = per_locus(d["low"], n), per_locus(d["up"], n)
+        i1, i2 = mk_ind(cont, x1), mk_ind(cont, x2)
+        res, t = run(tools.cxSimulatedBinaryBounded, rs, [], i1, i2, eta, d["low"], d["up"])
+        sites = sbxb_crossed(x1, x2, rs)
+        whys = [(i, r, sbxb_why(eta, x1[i], x2[i], lo[i], up[i], r)) for i, r in sites]
+        hyp_lines = ["C10 xhyp sbxb %s %s %s %s %s %s" % (fbits(eta), fbits(x1[i]), fbits(x2[i]), fbits(lo[i]),
+                                                          fbits(up[i]), fbits(r)) for i, r, _ in whys]
+        main = "C10 sbxb %s %s %s %s %s %s" % (fbits(eta), flist(x1), flist(x2), btok(d["low"]), btok(d["up"]),
+                                               flist(t.used_r))
+        outs = None if isinstance(res, str) else (list(res[0]), list(res[1]))
+    else:
+        x = list(d["x"])
+        n = len(x)
+        lo, up = per_locus(d["low"], n), per_locus(d["up"], n)
+        ind = mk_ind(cont, x)
+        res, t = run(tools.mutPolynomialBounded, rs, [], ind, eta, d["low"], d["up"], d["indpb"])
+        sites = poly_mutated(n, d["indpb"], rs)
+        whys = [(i, r, poly_why(eta, x[i], lo[i], up[i], r)) for i, r in sites]
+        hyp_lines = ["C10 xhyp poly %s %s %s %s %s" % (fbits(eta), fbits(x[i]), fbits(lo[i]), fbits(up[i]), fbits(r))
+                     for i, r, _ in whys]
+        main = "C10 poly %s %s %s %s %s %s" % (fbits(eta), flist(x), btok(d["low"]), btok(d["up"]),
+                                               fbits(d["indpb"]), flist(t.used_r))
+        outs = None if isinstance(res, str) else (list(res[0]),)
+    all_ok = all(w == "ok" for _, _, w in whys)
+    inside = in_statement_domain(eta, lo, up)
+    pre = "" if inside else "CORRESPONDENCE: "
+    orc, states = None, set()
+    if outs is None:
+        # an exception: the Float model has none to show; the theorems exclude it when their hypotheses hold
+        if all_ok:
+            orc = pre + "implementation raised %s although the hypotheses of the NaN-freedom theorem hold" % res
+        return Case(d, hyp_lines, [w for _, _, w in whys], orc, tag="%s/xmag/%s" % (op, res), tol=tol)
+    for i, r, w in whys:
+        for o in outs:
+            st = gene_state(o[i], lo[i], up[i])
+            states.add(st)
+            if w == "ok" and st != "fin" and orc is None:
+                orc = pre + "%s: gene %d = %r is not a finite number inside [%r, %r] although the hypotheses of the " \
+                            "NaN-freedom theorem (C10.%s_rounded_locus) hold" % (op, i, o[i], lo[i], up[i], op)
+    if op == "sbxb":
+        exp = "ok 1,2 %s %s 0" % (flist(outs[0]), flist(outs[1]))
+    else:
+        exp = "ok 1 %s 0" % flist(outs[0])
+    letters = "+".join(sorted(set(w for _, _, w in whys))) or "skip"
+    tag = "%s/xmag/%s/%s" % (op, letters, "+".join(sorted(states)) or "-")
+    return Case(d, [main] + hyp_lines, [exp] + [w for _, _, w in whys], orc, tag=tag, nontrivial=bool(whys), tol=tol)
+
+
 def _evaluate(d):
     op, cont = d["op"], d.get("cont", "list")
     cat = d.get("cat", "")
@@ -457,14 +718,10 @@ def _evaluate(d):
             c1, c2 = list(res[0]), list(res[1])
             orc = first(check_genes("child1", c1, len(x1)), check_genes("child2", c2, len(x2)))
         if orc is None and op == "blend":
-            orc = first(check_sum(op, x1, x2, c1, c2), check_range(op, x1, x2, c1, c2, d["alpha"]))
+            orc = first(check_sum_exact(op, x1, x2, c1, c2, 6, blend_factors(d["alpha"], t.used_r[:n])),
+                        check_range(op, x1, x2, c1, c2, d["alpha"]))
         if orc is None and op == "sbx":
-            extra = []
-            for r in t.used_r:
-                beta = (2.0 * r if r <= 0.5 else 1.0 / (2.0 * (1.0 - r))) ** (1.0 / (d["eta"] + 1.0))
-                extra.append(beta)
-            extra = [16 * EPSM * (1.0 + b) * (abs(x1[i]) + abs(x2[i])) for i, b in enumerate(extra[:n])]
-            orc = check_sum(op, x1, x2, c1, c2, extra)
+            orc = check_sum_exact(op, x1, x2, c1, c2, 5, sbx_factors(d["eta"], t.used_r[:n]))
         if orc is None and op == "sbxb":
             lo, up = per_locus(d["low"], n), per_locus(d["up"], n)
             orc = first(check_bounds("child1", c1, lo, up, n), check_bounds("child2", c2, lo, up, n))
@@ -500,8 +757,10 @@ def _evaluate(d):
                         check_genes("strategy1", t1, len(s1)), check_genes("strategy2", t2, len(s2)))
         if orc is None:
             m = min(len(x1), len(x2), len(s1), len(s2))
-            orc = first(check_sum("esblend genes", x1[:m], x2[:m], c1, c2),
-                        check_sum("esblend strategies", s1[:m], s2[:m], t1, t2),
+            orc = first(check_sum_exact("esblend genes", x1[:m], x2[:m], c1, c2, 6,
+                                        blend_factors(d["alpha"], t.used_r[0:2 * m:2])),
+                        check_sum_exact("esblend strategies", s1[:m], s2[:m], t1, t2, 6,
+                                        blend_factors(d["alpha"], t.used_r[1:2 * m:2])),
                         check_range("esblend genes", x1[:m], x2[:m], c1, c2, d["alpha"]),
                         check_range("esblend strategies", s1[:m], s2[:m], t1, t2, d["alpha"]))
         if edge:
@@ -975,6 +1234,121 @@ def alias_case(rng):
     return d
 
 
+# ---------------------------------------------------------------------------------------------
+# extreme magnitudes
+# ---------------------------------------------------------------------------------------------
+XDRAWS = [0.0, 5e-324, 1e-300, EPSM, 0.25, 0.5 - EPSM, 0.5, 0.5 + EPSM, 0.75, 1.0 - 2.0 ** -52, TOP]
+XETAS = [0, 0.0, 1e-3, 1.0, 20.0, 1e3, 1e6, 1e6, 1e15, 1e300]
+XPOOL = ["nan", "inf", "-inf", 0.0, -0.0, 5e-324, -5e-324, 2.2250738585072014e-308, 1e-300, -1e-300, 1e-14, 0.3, 1.0,
+         -1.0, 1e6, -1e6, 1e300, -1e300, 1e308, -1e308, sys.float_info.max, -sys.float_info.max]
+
+
+def xwidth(rng):
+    """a width between 1e-300 and 1.7e308 (log-uniform exponents, special ones near the guard and near overflow)"""
+    r = rng.random()
+    if r < 0.12:
+        return rng.choice([1e-14, 1.5e-14, 9.9e-15, 2e-14, 1e-15])
+    if r < 0.30:
+        return rng.choice([8.9e307, 9e307, 1e308, 1.7e308, sys.float_info.max, 4.5e307])
+    m = rng.choice([1.0, 1.0, 1.5, rng.uniform(1.0, 10.0)])
+    return m * 10.0 ** rng.choice([-300, -250, -200, -100, -50, -20, -10, -3, 0, 3, 10, 50, 100, 200, 300, 307,
+                                   rng.randint(-300, 307)])
+
+
+def xbounds(rng, wmin=0.0):
+    """low < up, both finite; the width or the sum of the bounds may overflow"""
+    for _ in range(100):
+        w = xwidth(rng)
+        if w < wmin:
+            continue
+        r = rng.random()
+        if r < 0.25:
+            lo = 0.0
+        elif r < 0.45:
+            lo = -w / 2
+        elif r < 0.55:
+            lo = -w
+        elif r < 0.65:
+            lo = w
+        elif r < 0.75:
+            lo = rng.choice([1.0, -1.0, 1e6, -1e6])
+        elif r < 0.85:
+            lo = rng.choice([1e300, -1e300, 1e307, -1.7e308, -1e308, -9e307])
+        else:
+            lo = rng.choice([1, -1]) * 10.0 ** rng.randint(-300, 300)
+        up = lo + w
+        if r >= 0.97:
+            lo, up = rng.choice([(-1e308, 1e308), (-1.7e308, 1.7e308), (-9e307, 9e307), (-sys.float_info.max, sys.float_info.max)])
+        if math.isfinite(lo) and math.isfinite(up) and lo < up:
+            return float(lo), float(up)
+    return 0.0, 1.0
+
+
+def xgene(rng, lo, up):
+    r = rng.random()
+    if r < 0.3:
+        x = lo
+    elif r < 0.6:
+        x = up
+    elif r < 0.68:
+        x = nxt(lo, True)
+    elif r < 0.76:
+        x = nxt(up, False)
+    elif r < 0.86:
+        x = lo / 2 + up / 2
+    else:
+        x = lo / 2 + up / 2 + (up / 2 - lo / 2) * rng.uniform(-1, 1)
+    if not math.isfinite(x):
+        x = lo
+    return min(max(float(x), lo), up)
+
+
+def xdraw(rng):
+    return rng.choice(XDRAWS) if rng.random() < 0.75 else rng.random()
+
+
+def xmag_case(rng, op):
+    n = rng.choice([1, 1, 1, 2])
+    # bounded SBX never crosses parents closer than 1e-14: narrower bounds are left to the mutation
+    ps = [xbounds(rng, 1e-15 if op == "sbxb" else 0.0) for _ in range(n)]
+    if n > 1 and rng.random() < 0.5:
+        ps = [ps[0]] * n
+    scalar = all(p == ps[0] for p in ps)
+    low = ps[0][0] if scalar else [p[0] for p in ps]
+    up = ps[0][1] if scalar else [p[1] for p in ps]
+    d = {"op": op, "xmag": True, "cat": "xmag", "cont": rng.choice(["list", "list", "array", "ndarray"]),
+         "low": low, "up": up, "eta": rng.choice(XETAS)}
+    if op == "poly":
+        d["x"] = [xgene(rng, lo, hi) for lo, hi in ps]
+        d["indpb"] = 1.0
+        d["rs"] = [v for _ in range(n) for v in (rng.random(), xdraw(rng))]
+        return d
+    d["x1"] = [xgene(rng, lo, hi) for lo, hi in ps]
+    d["x2"] = [xgene(rng, lo, hi) for lo, hi in ps]
+    for i, (lo, hi) in enumerate(ps):            # equal parents are skipped by the guard: mostly avoid them
+        if d["x1"][i] == d["x2"][i] and rng.random() < 0.85:
+            d["x2"][i] = hi if d["x1"][i] != hi else lo
+    d["rs"] = [v for _ in range(n) for v in (rng.random() * 0.5, xdraw(rng), rng.random())]
+    return d
+
+
+def xclamp_case(rng):
+    def pick():
+        v = rng.choice(XPOOL)
+        if rng.random() < 0.3:
+            v = rng.choice([1, -1]) * 10.0 ** rng.uniform(-320, 308)
+        return v
+    c, a, b = pick(), pick(), pick()
+    if rng.random() < 0.8:                       # proper bounds: finite, ordered
+        fa, fb = float(a), float(b)
+        if not math.isfinite(fa):
+            fa = 0.0
+        if not math.isfinite(fb):
+            fb = 1.0
+        a, b = min(fa, fb), max(fa, fb)
+    return {"op": "xclamp", "cat": "xclamp", "c": dv(c), "xl": dv(a), "xu": dv(b)}
+
+
 def generate(tier, rng, mult):
     for d in grid(tier):
         yield d
@@ -983,6 +1357,23 @@ def generate(tier, rng, mult):
         yield clamp_case(rng, "sbxb")
     for _ in range((40000 if thorough else 4000) * mult):
         yield clamp_case(rng, "poly")
+    for c in XPOOL:                                    # the clamp on every special value, fixed bounds
+        for xl, xu in ((0.0, 1.0), (-1e308, 1e308), (-0.1, 0.3), (5e-324, 1e-300), (1.0, 1.0)):
+            yield {"op": "xclamp", "cat": "xclamp", "c": dv(c), "xl": xl, "xu": xu}
+    for _ in range((3000 if thorough else 300) * mult):
+        yield xclamp_case(rng)
+    # the inputs of the counterexample theorems C10.poly_width_overflow_nan / C10.sbxb_width_overflow_nan on the real code
+    for eta in (0, 0.0, 20.0, 1e6):
+        yield {"op": "poly", "xmag": True, "cat": "xmag", "x": [-1e308], "low": -1e308, "up": 1e308, "eta": eta,
+               "indpb": 1.0, "rs": [0.0, 0.0]}
+    yield {"op": "sbxb", "xmag": True, "cat": "xmag", "x1": [-1e308], "x2": [1e308], "low": -1e308, "up": 1e308,
+           "eta": 0.0, "rs": [0.25, 0.0, 0.75]}
+    yield {"op": "sbxb", "xmag": True, "cat": "xmag", "x1": [8.5e307], "x2": [1.7e308], "low": 0.0, "up": 1.7e308,
+           "eta": 0.0, "rs": [0.25, TOP, 0.75]}
+    for _ in range((150000 if thorough else 2500) * mult):
+        yield xmag_case(rng, "sbxb")
+    for _ in range((150000 if thorough else 2500) * mult):
+        yield xmag_case(rng, "poly")
     for _ in range((4000 if thorough else 400) * mult):
         yield alias_case(rng)
     # every operator on every kind of sequence individual (which pairs run never depends on the seed)
